@@ -271,4 +271,4 @@ func run(c lib.Case) (lib.Out, any) {
 	return lib.List(outs...), extra
 }
 
-func main() { lib.Main(run) }
+func main() { b11repo.ParallelMain(run) }
